@@ -452,12 +452,29 @@ def prune_dataflow_cache(world: World):
     if not world.use_cache:
         return
     min_cache_time = min(s.last_step.time for s in world.sims.values())
+    # Time-shifted connections read the cache further in the past.
+    max_shift = max(
+        (
+            delay.tiers[0]
+            for s in world.sims.values()
+            for (_, delay) in s.pulled_inputs.keys()
+        ),
+        default=0,
+    )
+    min_cache_time -= max_shift
     for sim in world.sims.values():
         if sim.outputs:
+            # A simulator that is ahead of its consumers may not have
+            # produced output exactly at min_cache_time; the newest
+            # entry before that time is still needed, then.
+            keep_from = max(
+                (time for time in sim.outputs if time <= min_cache_time),
+                default=min_cache_time,
+            )
             sim.outputs = {
                 time: cache
                 for time, cache in sim.outputs.items()
-                if time >= min_cache_time
+                if time >= keep_from
             }
 
 
